@@ -337,6 +337,36 @@ func cmdCheck(args []string) int {
 			fail(o.Name, rp, noInput)
 		}
 	}
+	// protocol frames: every writer of a protected word is under the protocol
+	usedProtocols := map[string]bool{}
+	for _, fc := range units {
+		for _, pu := range fc.Protocols {
+			usedProtocols[pu.Name] = true
+		}
+	}
+	for name := range usedProtocols {
+		pr := cs.Protocols[name]
+		if pr == nil {
+			continue
+		}
+		writers, missing := p.protocolFrame(pr)
+		oname := "protocol." + name + ".frame"
+		nObl++
+		if len(missing) == 0 {
+			nDis++
+			backend["static scan"]++
+			seen[oname] = &ObligResult{Name: oname, Status: "discharged", Kind: "frame"}
+			ev.Coverage.Notes = append(ev.Coverage.Notes, fmt.Sprintf("protocol %s: writers of %s.%s = %v; exempt (assumed) = %v", name, pr.Struct, pr.Field, writers, pr.Exempt))
+			for _, e := range pr.Exempt {
+				ev.addAssumption("protocol " + name + ": writer " + e + " of " + pr.Struct + "." + pr.Field + " is exempt from the protocol obligations (its steps are assumed to respect the guarantee)")
+			}
+		} else {
+			seen[oname] = &ObligResult{Name: oname, Status: "failed", Kind: "frame"}
+			rp := writeReplay(oname, map[string]interface{}{"obligation": oname, "property": *prop, "status": "failed", "reason": "functions write the protected word without being verified under the protocol", "functions": missing})
+			fmt.Printf("obligation %s failed: %v write %s.%s outside the protocol\n", oname, missing, pr.Struct, pr.Field)
+			fail(oname, rp, true)
+		}
+	}
 	// ledger
 	if *updateLedger {
 		var names []string
